@@ -46,7 +46,10 @@ RULE = (
     "objects whose contents are changed in place in between (+=, *=, slice assignment, row/column overwrite of a 2-D array, shuffle, "
     "full overwrite), with the same and with other window parameters / centres on the same region, interleaved with a second "
     "coordinate set, and with ONE region object per set reused by all its rolling_window calls. Regions are passed as list, tuple, "
-    "float64 ndarray, row view of a 2-D table, float32 ndarray or integer ndarray. Non-trivial rolling case = at least two windows with different "
+    "float64 ndarray, row view of a 2-D table, float32 ndarray or integer ndarray. Equivalent spellings: size / spacing as python "
+    "int or float, numpy integer / floating (float32 too) and 0-d array; spacing and shape pairs as tuple, list, ndarray with python or "
+    "numpy elements; centre as tuple, list, 1-D / (1,2) ndarray, numpy scalars, 0-d arrays; sizes as lists mixing all of these; falsy but "
+    "valid values (size 0, an all-zero extra coordinate, points on the northing axis). Non-trivial rolling case = at least two windows with different "
     "selections, at least one decided inside and one decided outside (point, window) pair; non-trivial expanding case = at least two "
     "sizes with different selections. Distinct = hash of the coordinate arrays and the configuration."
 )
@@ -86,7 +89,21 @@ FLOORS = {
         "class:region_container_ndarray_integer": 29, "history:rolling_calls_reusing_the_region_object": 170,
         "history:region_object_reused_ndarray_float64": 30, "history:region_object_reused_ndarray_float64_row_view_of_table": 15,
         "history:region_object_reused_ndarray_float32": 16, "history:region_object_reused_ndarray_integer": 7,
-        "expanding:class:sizes_container_ndarray_float64": 110,
+        "expanding:class:sizes_container_ndarray_float64": 110, "class:size_spelled_python_int": 11,
+        "class:size_spelled_numpy_int64": 4, "class:size_spelled_numpy_int32": 3, "class:size_spelled_numpy_float64": 88,
+        "class:size_spelled_numpy_float32": 14, "class:size_spelled_ndarray0d_float64": 87,
+        "class:size_spelled_ndarray0d_int64": 5, "class:spacing_spelled_tuple": 47, "class:spacing_spelled_list": 23,
+        "class:spacing_spelled_ndarray1d_float64": 47, "class:spacing_spelled_ndarray0d_float64": 30,
+        "class:spacing_spelled_numpy_float64": 27, "class:spacing_spelled_python_int": 3, "class:shape_spelled_tuple": 155,
+        "class:shape_spelled_list": 45, "class:shape_spelled_ndarray1d_int64": 22, "class:shape_element_numpy_int64": 52,
+        "class:shape_element_numpy_int32": 25, "class:extra_coordinate_all_zero": 100,
+        "expanding:class:centre_spelled_tuple": 300, "expanding:class:centre_spelled_list": 33,
+        "expanding:class:centre_spelled_ndarray1d_float64": 33, "expanding:class:centre_spelled_ndarray2d_float64": 35,
+        "expanding:class:centre_element_numpy_float64": 48, "expanding:class:centre_element_ndarray0d_float64": 40,
+        "expanding:class:centre_element_python_int": 2, "expanding:class:sizes_element_numpy_float64": 65,
+        "expanding:class:sizes_element_ndarray0d_float64": 73, "expanding:class:sizes_element_python_int": 11,
+        "expanding:class:sizes_element_numpy_int64": 6, "expanding:class:easting_or_northing_all_zero": 10,
+        "expanding:class:extra_coordinate_all_zero": 56,
     },
     "thorough": {
         "eval:rolling_window.centres": 13800, "eval:rolling_window.index_form": 13800, "eval:rolling_window.membership": 13800,
@@ -113,7 +130,21 @@ FLOORS = {
         "history:rolling_calls_reusing_the_region_object": 3400, "history:region_object_reused_ndarray_float64": 600,
         "history:region_object_reused_ndarray_float64_row_view_of_table": 300,
         "history:region_object_reused_ndarray_float32": 320, "history:region_object_reused_ndarray_integer": 140,
-        "expanding:class:sizes_container_ndarray_float64": 2200,
+        "expanding:class:sizes_container_ndarray_float64": 2200, "class:size_spelled_python_int": 220,
+        "class:size_spelled_numpy_int64": 80, "class:size_spelled_numpy_int32": 60, "class:size_spelled_numpy_float64": 1760,
+        "class:size_spelled_numpy_float32": 280, "class:size_spelled_ndarray0d_float64": 1740,
+        "class:size_spelled_ndarray0d_int64": 100, "class:spacing_spelled_tuple": 940, "class:spacing_spelled_list": 460,
+        "class:spacing_spelled_ndarray1d_float64": 940, "class:spacing_spelled_ndarray0d_float64": 600,
+        "class:spacing_spelled_numpy_float64": 540, "class:spacing_spelled_python_int": 60, "class:shape_spelled_tuple": 3100,
+        "class:shape_spelled_list": 900, "class:shape_spelled_ndarray1d_int64": 440, "class:shape_element_numpy_int64": 1040,
+        "class:shape_element_numpy_int32": 500, "class:extra_coordinate_all_zero": 2000,
+        "expanding:class:centre_spelled_tuple": 6000, "expanding:class:centre_spelled_list": 660,
+        "expanding:class:centre_spelled_ndarray1d_float64": 660, "expanding:class:centre_spelled_ndarray2d_float64": 700,
+        "expanding:class:centre_element_numpy_float64": 960, "expanding:class:centre_element_ndarray0d_float64": 800,
+        "expanding:class:centre_element_python_int": 40, "expanding:class:sizes_element_numpy_float64": 1300,
+        "expanding:class:sizes_element_ndarray0d_float64": 1460, "expanding:class:sizes_element_python_int": 220,
+        "expanding:class:sizes_element_numpy_int64": 120, "expanding:class:easting_or_northing_all_zero": 200,
+        "expanding:class:extra_coordinate_all_zero": 1120,
     },
 }
 JOBS = {"quick": 1, "thorough": 8}
@@ -197,6 +228,49 @@ def region_container(region):
     return type(region).__name__
 
 
+def spelling(obj):
+    """How the caller wrote a value: python_int, numpy_float64, ndarray0d_float64, list, ..."""
+    if isinstance(obj, np.ndarray):
+        return "ndarray%dd_%s" % (obj.ndim, obj.dtype)
+    if isinstance(obj, np.generic):
+        return "numpy_" + type(obj).__name__
+    if isinstance(obj, (list, tuple)):
+        return type(obj).__name__
+    return "python_" + type(obj).__name__
+
+
+def count_spellings(run, prefix, obj):
+    """Counter for the container (or scalar spelling) and, for sequences, one per distinct element spelling."""
+    run.count(prefix + "_spelled_" + spelling(obj))
+    if isinstance(obj, (list, tuple)):
+        for name in sorted({spelling(v) for v in obj}):
+            run.count(prefix + "_element_" + name)
+
+
+def is_single_precision(obj):
+    """A float32/float16 scalar or array (or a sequence containing one): arithmetic with it runs in single precision."""
+    if isinstance(obj, (np.ndarray, np.generic)):
+        return obj.dtype.kind == "f" and obj.dtype.itemsize < 8
+    if isinstance(obj, (list, tuple)):
+        return any(is_single_precision(v) for v in obj)
+    return False
+
+
+def spell_number(rng, value, single_ok=False, zero_d=True):
+    """The same number in another spelling: python int/float, numpy integer/floating, 0-d array (value-preserving)."""
+    v = float(value)
+    options = [v, v, np.float64(v)]
+    if zero_d:
+        options.append(np.array(v))
+    if v == np.rint(v) and abs(v) < 2 ** 31:
+        options += [int(v), int(v), np.int64(int(v)), np.int32(int(v))]
+        if zero_d:
+            options.append(np.array(int(v)))
+    if single_ok and float(np.float32(v)) == v:
+        options.append(np.float32(v))
+    return options[int(rng.integers(0, len(options)))]
+
+
 def check_centre_line(values, start, stop, size, spacing, adjust, loose_tol):
     """
     ref.check_line for float64 regions. For a single-precision region the same decision with a tolerance of a few float32
@@ -215,7 +289,8 @@ def check_centre_line(values, start, stop, size, spacing, adjust, loose_tol):
         q = ref.interval_ratio(start, stop, spacing)
         ok, tie = ref.intervals_ok(n, q)
         if not ok:
-            slack = Fraction(1, 2) + abs(q) * Fraction(8 * EPS32)
+            # single-precision bounds: the extent carries an absolute error of a few float32 ulps of the BOUNDS (offset clouds)
+            slack = Fraction(1, 2) + abs(q) * Fraction(8 * EPS32) + Fraction(2 * loose_tol) / abs(ref.frac(spacing))
             ok = n >= 1 and (abs(Fraction(n) - q) <= slack or (n == 1 and q < slack))
             tie = ok
         info.update(q=float(q), n=int(n), tie=bool(tie))
@@ -272,6 +347,10 @@ def _describe_input(run, arrays, prefix=""):
         run.count(prefix + "class:integer_coordinates")
     if len(arrays) > 2:
         run.count(prefix + "class:extra_coordinates")
+        if any(not np.any(a) for a in arrays[2:]):
+            run.count(prefix + "class:extra_coordinate_all_zero")
+    if not np.any(arrays[0]) or not np.any(arrays[1]):
+        run.count(prefix + "class:easting_or_northing_all_zero")
 
 
 # ----------------------------------------------------------------------
@@ -337,6 +416,12 @@ def install(tap, run):
         in_shape = arrays[0].shape
         x = arrays[0].ravel().astype("float64")
         y = arrays[1].ravel().astype("float64")
+        count_spellings(run, "class:size", size)
+        if spacing is not None:
+            count_spellings(run, "class:spacing", spacing)
+        if shape is not None:
+            count_spellings(run, "class:shape", shape)
+        single = is_single_precision(size) or is_single_precision(spacing)
         size = float(size)
         half = size / 2
         loose_tol = 0.0
@@ -353,6 +438,10 @@ def install(tap, run):
                 run.count("class:region_single_precision(centres judged to float32 ulps)")
             if np.any((x < w) | (x > e) | (y < s) | (y > n)):
                 run.count("class:points_outside_region")
+        if single and not loose_tol:
+            # a float32 size / spacing drags verde's bounds and centres into single precision (numpy promotion rules)
+            loose_tol = 16 * EPS32 * max(abs(w), abs(e), abs(s), abs(n), size)
+            run.count("class:size_or_spacing_single_precision(centres judged to float32 ulps)")
         _describe_input(run, arrays)
         base = witness_base(a, arrays)
         base["region_as_passed"] = ev.pre.get("region")
@@ -538,6 +627,9 @@ def install(tap, run):
             # the centre and sizes the caller passed (snapshot taken before the call)
             centre = np.asarray(ev.pre["center"], dtype="float64").ravel()
             sizes = [float(v) for v in ev.pre["sizes"]]
+            count_spellings(run, "expanding:class:centre", a["center"])
+            if not isinstance(a["sizes"], np.ndarray):
+                count_spellings(run, "expanding:class:sizes", a["sizes"])
             run.count("expanding:class:sizes_container_" + (("ndarray_" + str(a["sizes"].dtype)) if isinstance(a["sizes"], np.ndarray) else type(a["sizes"]).__name__))
         except Exception:  # noqa: BLE001
             run.count("skipped:expanding_unreadable_input")
@@ -690,7 +782,25 @@ def _layout(rng, flat_arrays, allow_2d=True):
 
 def _extras(rng, east):
     k = int(rng.choice([0, 0, 1, 2]))
-    return [rng.normal(size=east.size) * 100 + 7 * j for j in range(k)]
+    out = [rng.normal(size=east.size) * 100 + 7 * j for j in range(k)]
+    if out and rng.random() < 0.3:
+        out[0] = np.zeros(east.size)  # falsy but valid: an extra coordinate equal to 0 everywhere
+    return out
+
+
+def _spell_pair(rng, pair, integers=False):
+    """(south-north, west-east) spacing or shape as tuple / list / ndarray, elements python or numpy scalars."""
+    a, b = (int(v) for v in pair) if integers else (float(v) for v in pair)
+    form = int(rng.integers(0, 5))
+    if form == 0:
+        return (a, b)
+    if form == 1:
+        return [a, b]
+    if form == 2:
+        return np.array([a, b])
+    if form == 3:
+        return (np.int64(a), np.int32(b)) if integers else (np.float64(a), np.float64(b))
+    return [np.int64(a), b] if integers else np.array([a, b], dtype="float64")
 
 
 def _composite(rng, lo, hi):
@@ -817,6 +927,13 @@ def _rolling_case(run, vc, rng):
         kwargs["region"] = region
     if rng.random() < 0.5:
         kwargs["adjust"] = str(rng.choice(["spacing", "region"]))
+    # equivalent spellings of the same numbers (the size stays the very same value; float32 only away from the size == side boundary)
+    kwargs["size"] = spell_number(rng, size, single_ok=size < 0.9 * side)
+    if "spacing" in kwargs:
+        kwargs["spacing"] = _spell_pair(rng, kwargs["spacing"]) if isinstance(kwargs["spacing"], tuple) else \
+            spell_number(rng, kwargs["spacing"], single_ok=True)
+    else:
+        kwargs["shape"] = _spell_pair(rng, kwargs["shape"], integers=True)
     flat = [east, north] + _extras(rng, east)
     coords = _layout(rng, flat)
     out = _call_rolling(run, vc, coords, **kwargs)
@@ -861,6 +978,12 @@ def _rolling_edge_case(run, vc, rng):
     flat = flat + _extras(rng, east)
     if kwargs["region"] is None:
         del kwargs["region"]
+    kwargs["size"] = spell_number(rng, size, single_ok=size < 0.9 * min(m, p) * step)
+    if "spacing" in kwargs:
+        kwargs["spacing"] = spell_number(rng, kwargs["spacing"], single_ok=True) if rng.random() < 0.7 else \
+            _spell_pair(rng, (kwargs["spacing"], kwargs["spacing"]))
+    else:
+        kwargs["shape"] = _spell_pair(rng, kwargs["shape"], integers=True)
     coords = _layout(rng, flat)
     if coords[0].ndim == 1 and rng.random() < 0.5:
         coords = tuple(c.reshape(p + 1, m + 1) for c in coords)
@@ -868,6 +991,25 @@ def _rolling_edge_case(run, vc, rng):
     if out is not None:
         run.sample("rolling_edge", {"lattice": [m + 1, p + 1], "step": step, "offset": off, "integer_dtype": bool(integer), "kwargs": kwargs,
                                     "centres_shape": list(out[0][0].shape)})
+
+
+def _spell_centre(rng, cx, cy):
+    """One point written as tuple / list / ndarray / numpy scalars / 0-d arrays / a (1, 2) array (ints when integer-valued)."""
+    cx, cy = float(cx), float(cy)
+    form = int(rng.integers(0, 7))
+    if form == 0:
+        return (cx, cy)
+    if form == 1:
+        return [cx, cy]
+    if form == 2:
+        return np.array([cx, cy])
+    if form == 3:
+        return (np.float64(cx), np.float64(cy))
+    if form == 4:
+        return (np.array(cx), np.array(cy))
+    if form == 5:
+        return np.array([[cx, cy]])
+    return (spell_number(rng, cx, zero_d=False), spell_number(rng, cy))
 
 
 def _sizes_list(rng, extent, k=None):
@@ -880,7 +1022,9 @@ def _sizes_list(rng, extent, k=None):
     if rng.random() < 0.2:
         sizes[int(rng.integers(0, k))] = extent * 1e-6  # certainly empty unless centred on a point
     rng.shuffle(sizes)
-    form = int(rng.integers(0, 3))
+    form = int(rng.integers(0, 4))
+    if form == 3:  # a list mixing python and numpy scalars and 0-d arrays
+        return [spell_number(rng, v) for v in sizes]
     if form == 0:
         return [float(v) for v in sizes]
     if form == 1:
@@ -905,14 +1049,14 @@ def _expanding_case(run, vc, rng):
             centre = (w - rng.uniform(0, 1) * wid, n + rng.uniform(0, 1) * hei)
         else:
             centre = (0.5 * (w + e), 0.5 * (s + n))
-        form = int(rng.integers(0, 3))
-        centre = (float(centre[0]), float(centre[1]))
-        if form == 1:
-            centre = list(centre)
-        elif form == 2:
-            centre = np.array(centre)
+        centre = _spell_centre(rng, centre[0], centre[1])
         sizes = _sizes_list(rng, extent)
-        coords = _layout(rng, [east, north] + _extras(rng, east))
+        flat = [east, north] + _extras(rng, east)
+        if rng.random() < 0.06:
+            # falsy but valid: every point on the northing axis (easting == 0), with a non-zero extra coordinate
+            flat = [np.zeros(east.size), north, east]
+            centre = _spell_centre(rng, 0.0, float(np.asarray(centre, dtype="float64").ravel()[1]))
+        coords = _layout(rng, flat)
         out = vc.expanding_window(coords, center=centre, sizes=sizes)
     run.sample("expanding", {"coordinates": coords[:2], "n_extra": len(coords) - 2, "center": centre, "sizes": sizes,
                              "selected_per_size": [int(np.size(i[0])) for i in out]})
@@ -934,7 +1078,9 @@ def _expanding_edge_case(run, vc, rng):
         coords = _layout(rng, flat + _extras(rng, east))
         if coords[0].ndim == 1 and rng.random() < 0.5:
             coords = tuple(c.reshape(p + 1, m + 1) for c in coords)
-        out = vc.expanding_window(coords, center=(float(cx), float(cy)), sizes=sizes)
+        if rng.random() < 0.5:
+            sizes = [spell_number(rng, v) for v in sizes]
+        out = vc.expanding_window(coords, center=_spell_centre(rng, cx, cy), sizes=sizes)
     run.sample("expanding_edge", {"lattice": [m + 1, p + 1], "step": step, "center": [float(cx), float(cy)], "sizes": sizes,
                                   "selected_per_size": [int(np.size(i[0])) for i in out]})
 
